@@ -54,7 +54,7 @@ def run(ctx):
 
     tr_all = ctx.path("trace_all.ndjson")
     info_p = ctx.path("info.ndjson")
-    args = ["identity-trace", "--seed", ctx.seed, "--out", tr_all, "--info", info_p, "--rewrites", 4]
+    args = ["identity-trace", "--seed", ctx.seed, "--out", tr_all, "--info", info_p, "--rewrites", 8 if ctx.thorough else 4]
     if ctx.thorough:
         args += ["--chunk-blocks", 100000]
     ctx.run_bin(binary, args)
